@@ -183,6 +183,21 @@ def cross_checks(pid, case, impl_obs, model_obs):
                 if prev["objs"][j]["hdr"] and x["objs"][j]["hdr"]:
                     if prev["objs"][j]["bytes"] != x["objs"][j]["bytes"] or prev["objs"][j]["hdr"] != x["objs"][j]["hdr"]:
                         return f"op {n} on object {i} changed object {j}"
+        if pid == "C20":
+            # the frame invariant of the world model (WI), evaluated on the implementation: every arena slice of
+            # every object ends at or below the bump pointer of the allocation cache that owns its chunk
+            caches = {}
+            for o in x["objs"]:
+                if o["hdr"] and o["extra"][2]:
+                    caches[o["extra"][2][0]] = o["extra"][2][2]
+            for j, o in enumerate(x["objs"]):
+                if not o["hdr"]:
+                    continue
+                pairs = o["extra"][1]
+                for q, ln in enumerate(o["lens"]):
+                    cid, off = pairs[2 * q], pairs[2 * q + 1]
+                    if cid in caches and off + ln > caches[cid]:
+                        return f"op {n}: a slice of object {j} extends beyond the bump pointer of the cache that owns its chunk"
         if pid in ("C05", "C20", "C03") and x.get("glob") and x["glob"][2] != 1:
             return f"op {n}: a slice points outside live memory"
     return None
